@@ -6,7 +6,8 @@ import sys
 import core
 
 PROPS = ['Props/C16.lean']
-SCEN = 'scen_afifo'
+SCEN = 'scen_afifo'      # E2: pure-asyncio variants under the virtual-time loop
+SCEN_E1 = 'scen_asrv'    # E1: AsyncServer / AsyncParmapper (loop + threads) under the deterministic scheduler
 
 
 def keyfn(case, res, m):
@@ -49,7 +50,7 @@ def _validate(chk, scen, results, label):
 def _cases(chk, scen):
     rng = chk.rng
     quick = chk.tier == 'quick'
-    n_rand = 1200 if quick else 40000
+    n_rand = 4000 if quick else 60000
     boundary = scen.boundary_cases()
     rand = [scen.gen_case(rng, chk.tier, rng.choice(['', 'pre', 'pre', 'order', 'stop', 'src']))
             for _ in range(n_rand)]
@@ -64,15 +65,9 @@ def _cases(chk, scen):
         perms += list(scen.perm_cases(n, cap=n, re=[n // 2], rexc=False))
         perms += list(scen.perm_cases(n, cap=1, pf=[1], rexc=True))
         perms += list(scen.perm_cases(n, cap=2, pf=[1], rexc=True, kind='apmap'))
-    # AsyncParmapper (thread executor behind the loop): real loop, real threads, OS schedule (sampled)
-    thr = []
-    for _ in range(60 if quick else 1500):
-        c = scen.gen_case(rng, chk.tier, rng.choice(['', 'pre', 'stop']))
-        c['kind'] = 'apmap_thread'
-        c['cap'] = 2 * c['conc']
-        c['sdel'] = [0] * len(c['sdel'])
-        c['cdel'] = [0] * len(c['cdel'])
-        thr.append(c)
+    # thread-mixing variants under the deterministic scheduler (E1 + cooperative-selector loop)
+    asrv = importlib.import_module(SCEN_E1)
+    thr = [asrv.gen_case(rng, chk.tier, rng.choice(['', 'pre', 'pre'])) for _ in range(1200 if quick else 30000)]
     return boundary, rand, perms, thr
 
 
@@ -88,11 +83,13 @@ def run(chk):
     chk.account(scen, results, 'E2-vloop')
     chk.collect_monitors(results, props, keyfn)
     _validate(chk, scen, results, 'E2 async_fifo_stream / AsyncParmapperAsync vs drv afifo')
-    # sampled: AsyncParmapper on a real loop with real threads — monitors only (async == sync == spec)
-    tres = chk.run_cases(SCEN, thr, sched=False)
-    chk.account(scen, tres, 'real-loop+threads (sampled)')
+    # E1: AsyncServer.stream/call vs Server.stream/call, AsyncParmapper vs Stream.parmap — monitors only
+    asrv = importlib.import_module(SCEN_E1)
+    tres = chk.run_cases(SCEN_E1, thr, sched=True)
+    chk.account(asrv, tres, 'E1-detsched+cooploop')
     chk.collect_monitors(tres, props, keyfn)
-    chk.cov.setdefault('suites', {})['AsyncParmapper(thread) vs Stream.parmap, OS schedule'] = dict(cases=len(tres))
+    chk.cov.setdefault('suites', {})['E1 AsyncServer.stream/call vs Server.stream/call, AsyncParmapper(thread) vs Stream.parmap'] = \
+        dict(cases=len(tres), by_kind={k: sum(1 for c in thr if c['kind'] == k) for k in ('srv_stream', 'srv_call', 'apmap_thread')})
     for case, res in results:
         if scen.nontrivial(case, res) and case.get('pf') and not case.get('perm'):
             chk.sample(dict(case=case, events=res.get('events', [])[:60], out=res.get('out'), end=res.get('end'),
@@ -123,8 +120,10 @@ def run(chk):
         '(thorough) concurrent calls via per-call virtual durations + random (kind, n, capacity, flags, preprocessor '
         'and worker failure plans, source ending, stop position, virtual durations of calls/source/consumer); each is '
         'run on the real async_fifo_stream / AsyncParmapperAsync under the virtual-time loop AND on the real '
-        'fifo_stream / Stream.parmap(thread) and compared; non-trivial = n >= 2 elements and >= 2 calls in flight at '
-        'the same time; distinct = distinct (case, event trace)')
+        'fifo_stream / Stream.parmap(thread) and compared; plus random cases (kind, n, capacity, threads, plans, flags, '
+        'chooser, seed) for AsyncServer.stream/call and AsyncParmapper vs their sync counterparts under the '
+        'deterministic scheduler; non-trivial = n >= 2 elements and >= 2 calls in flight at the same time (E2) / >= 1 '
+        'context switch (E1); distinct = distinct (case, event trace)')
     chk.trusted += TRUSTED
     chk.assumptions += ASSUMPTIONS
 
@@ -150,9 +149,12 @@ TRUSTED = [
     'virtual-time event loop harness/vloop.py (SelectorEventLoop with a virtual clock; hang = idle loop without timers)',
     'modelled not verified: asyncio.Queue is FIFO with maxsize slots; awaiting a done task/future returns its own outcome; '
     'Task.cancel() succeeds on every task that is not done; a worker coroutine does not swallow CancelledError',
-    'AsyncParmapper (thread pool behind the loop) is run on a real loop with real threads: OS schedule sampled, monitors only',
-    'AsyncServer.call/stream vs Server.call/stream: covered only through the theorem about async_fifo_stream, which '
-    'AsyncServer.stream delegates to with func=_enqueue; the servers themselves are not run by this check',
+    'deterministic scheduler harness/detsched.py + cooperative-selector event loop harness/cooploop.py for the '
+    'thread-mixing variants (AsyncServer.stream/call vs Server.stream/call with a thread servlet, AsyncParmapper vs '
+    'Stream.parmap): monitors only (async == sync == spec on explored schedules); in Lean they are covered through '
+    'the theorems about async_fifo_stream / fifo_stream, to which they delegate with a different `func` '
+    '(the servers\' own request ledger is the subject of C02)',
+    'process servlets / process executors are not run by this check (OS schedule); same code path above the executor',
 ]
 ASSUMPTIONS = [
     'the correspondence was checked on the cases explored in this run only; the theorems quantify over all action lists of the models',
@@ -162,7 +164,8 @@ ASSUMPTIONS = [
 
 
 def replay(chk, data):
-    res = chk.run_cases(SCEN, [data['case']], sched=False)
+    e1 = data['case'].get('kind') in ('srv_stream', 'srv_call', 'apmap_thread')
+    res = chk.run_cases(SCEN_E1 if e1 else SCEN, [data['case']], sched=e1)
     case, r = res[0]
     hits = [m for m in r['monitors'] if m['prop'] == chk.prop]
     print(json.dumps(dict(monitors=r['monitors'], out=r.get('out'), end=r.get('end'), sync_out=r.get('sync_out'),
